@@ -931,7 +931,8 @@ class CSSStyleSheet(cssutils.stylesheets.StyleSheet):
                         return
                 self._cssRules.insert(index, rule)
 
-        # post settings
+        # post settings (a rule object may come from inside another rule)
+        rule._parent = rule._parentRule = None
         rule._parentStyleSheet = self
 
         if rule.IMPORT_RULE == rule.type and not rule.hrefFound:
